@@ -361,6 +361,48 @@ def r_alias_vs_type(m, rnd):
         yield d.kind, apply
 
 
+def _new_def_named(m2, kind, name, ns):
+    """A minimal, otherwise valid definition of the given kind called name."""
+    if kind == 'struct':
+        return StructDef(name=name, ns=ns, doc=Doc([['clash']]), parent=None, fields=[],
+                         patch_fields=[], subtypes=None, examples=[])
+    if kind == 'alias':
+        return AliasDef(name=name, ns=ns, doc=None, type=prim('String'), anns=[])
+    if kind == 'annotation':
+        return AnnDef(name=name, ns=ns, atype='Preview', args=[], kwargs={})
+    if kind == 'annotation_type':
+        return AnnTypeDef(name=name, ns=ns, doc=Doc([['clash']]), params=[])
+    if kind == 'route':
+        at = _dummy_attrs(m2)
+        if at is None:
+            return None
+        return RouteDef(name=name, ns=ns, version=1, doc=None, arg=VOID, result=VOID,
+                        error=VOID, deprecated=None, attrs=at)
+    raise AssertionError(kind)
+
+
+@rule('name_clash_across_kinds')
+def r_clash_kinds(m, rnd):
+    """Every definition kind shares one name table per namespace: a second
+    definition of a used name is refused whatever the two kinds are and
+    whichever comes first."""
+    for path, d in defs(m, ('struct', 'union', 'alias', 'annotation', 'annotation_type', 'route')):
+        if d.kind == 'route' and d.version != 1:
+            continue
+        for k in ('struct', 'alias', 'annotation', 'annotation_type', 'route'):
+            if k == 'route' and _dummy_attrs(m) is None:
+                continue
+            for where in ('before', 'after'):
+                def apply(m2, path=path, d=d, k=k, where=where):
+                    ns = m2.namespaces[path[0]]
+                    c = _new_def_named(m2, k, d.name, d.ns)
+                    if where == 'before':
+                        ns.defs.insert(path[1], c)
+                    else:
+                        ns.defs.append(c)
+                yield '%s_then_%s' % ((k, d.kind) if where == 'before' else (d.kind, k)), apply
+
+
 @rule('canonical_name_clash')
 def r_canonical_clash(m, rnd):
     # same letters, different case / underscores: distinct symbols, same canonical name
